@@ -45,7 +45,10 @@ def main():
         sh('git checkout --detach $(git -C %s rev-parse HEAD)' % REPO, cwd=WT)
         os.makedirs(os.path.dirname(os.path.join(WT, place)), exist_ok=True)
         shutil.copy(os.path.join(seed, 'demo.rs'), os.path.join(WT, place))
-        cmd = 'cargo test --offline -p %s %s --test %s' % (pkg, feats, tname)
+        # a demonstration that needs the release profile says so in its header (`run: cargo test --offline --release ..`)
+        rel = '--release ' if '--release' in ' '.join(demo.splitlines()[:3]) else ''
+        cmd = 'cargo test --offline %s-p %s %s --test %s' % (rel, pkg, feats, tname)
+        res['demo_profile'] = 'release' if rel else 'dev'
         rc0, out0 = sh(cmd, cwd=WT)
         res['demo_clean'] = 'PASS' if rc0 == 0 else 'FAIL'
         rc, out = sh('git apply %s' % patch, cwd=WT)
